@@ -18,6 +18,14 @@ IMPORT_CASES = [
     ("import-digit-second-char", {"main.tsh": 'import m "lib.tsh"\nprint(m.p1())\n', "lib.tsh": 'func p1() int {\n\treturn 2\n}\n'}, False),
     ("import-upper-later", {"main.tsh": 'import m "lib.tsh"\nprint(m.pUB())\n', "lib.tsh": 'func pUB() int {\n\treturn 2\n}\n'}, False),
     ("import-underscore-upper", {"main.tsh": 'import m "lib.tsh"\nprint(m._Pub())\n', "lib.tsh": 'func _Pub() int {\n\treturn 2\n}\n'}, False),
+    # a qualified name resolves only through an alias that IS imported - never to a function of the file itself (round 7: C07-9)
+    ("unknown-alias-own-func", {"main.tsh": 'func double(n int) int {\n\treturn n * 2\n}\nprint(util.double(21))\n'}, False),
+    ("unknown-alias-own-func-stmt", {"main.tsh": 'func hello() {\n\tprint("hi")\n}\nutil.hello()\n'}, False),
+    ("unknown-alias-own-func-in-func", {"main.tsh": 'func double(n int) int {\n\treturn n * 2\n}\nfunc q() int {\n\treturn util.double(1)\n}\nprint(q())\n'}, False),
+    ("std-like-alias-own-func", {"main.tsh": 'func Upper(s string) string {\n\treturn s + "!"\n}\nprint(strings.Upper("abc"))\n'}, False),
+    ("other-alias-own-func", {"main.tsh": 'import m "lib.tsh"\nfunc Own() int {\n\treturn 5\n}\nprint(n.Own(), m.Pub())\n', "lib.tsh": 'func Pub() int {\n\treturn 1\n}\n'}, False),
+    ("imported-alias-own-func", {"main.tsh": 'import m "lib.tsh"\nfunc Own() int {\n\treturn 5\n}\nprint(m.Own())\n', "lib.tsh": 'func Pub() int {\n\treturn 1\n}\n'}, False),
+    ("own-func-unqualified-next-to-import", {"main.tsh": 'import m "lib.tsh"\nfunc Own() int {\n\treturn 5\n}\nprint(Own(), m.Pub())\n', "lib.tsh": 'func Pub() int {\n\treturn 1\n}\n'}, True),
     ("import-local-without-alias", {"main.tsh": 'import "lib.tsh"\nprint(1)\n', "lib.tsh": 'func Pub() int {\n\treturn 1\n}\n'}, False),
 ]
 
